@@ -131,6 +131,12 @@ func (s script) stream(l *evlog) grpc.StreamServerInterceptor {
 }
 
 func outcomeTerm(resp *hx.Msg, err error) string {
+	if err == context.Canceled {
+		return "(Err (-3))" // the bare context error value, not a status
+	}
+	if err == context.DeadlineExceeded {
+		return "(Err (-4))"
+	}
 	if err != nil {
 		return fmt.Sprintf("(Err %d)", uint32(status.Code(err)))
 	}
@@ -163,6 +169,7 @@ func descSnapshot(d *grpc.ServiceDesc) string {
 
 func runC16(o *hx.Out, r *hx.Rand, thorough bool) {
 	l := &evlog{}
+	streamRet := int64(0) // what the stream handler returns
 	svc := &hx.Svc{
 		Unary: func(ctx context.Context, req *hx.Msg) (*hx.Msg, error) {
 			c := ctxVal(ctx)
@@ -171,6 +178,14 @@ func runC16(o *hx.Out, r *hx.Rand, thorough bool) {
 		},
 		Stream: func(kind string, ss grpc.ServerStream) error {
 			l.add(fmt.Sprintf("Handled %s %s 0", hx.Str(kind), hx.Z(ctxVal(ss.Context()))))
+			switch {
+			case streamRet == -3:
+				return context.Canceled // the bare error value of some context
+			case streamRet == -4:
+				return context.DeadlineExceeded
+			case streamRet > 0:
+				return status.Error(codes.Code(streamRet), "handler failed")
+			}
 			return nil
 		},
 	}
@@ -328,6 +343,14 @@ func runC16(o *hx.Out, r *hx.Rand, thorough bool) {
 		desc2s := map[string]interface{}{"carrier": "registry", "svc": svcName, "stream": kind, "decor_innermost_first": decor, "views_0both_1unary_2stream": masks, "ctx": ctx0}
 		o.Case("stream_registry", fmt.Sprintf("SCase \"registry\" %s %s %s %s None %s %s %s %s", hx.Str(svcName), hx.Str(kind), hx.B(flags[kind][0]), hx.B(flags[kind][1]),
 			hx.List(decS), hx.Z(ctx0), outcomeTerm(&hx.Msg{}, serr), hx.List(l.take())), desc2s)
+		// the same dispatch with a handler that fails, with a status or with a bare context error
+		streamRet = []int64{-3, -4, 5, 14, -3}[r.Intn(5)]
+		l.take()
+		serr = rd.Streams[si].Handler(svc, fakeSS{ctx: withVal(context.Background(), ctx0)})
+		desc2r := map[string]interface{}{"carrier": "registry", "svc": svcName, "stream": kind, "decor_innermost_first": decor, "views_0both_1unary_2stream": masks, "ctx": ctx0, "handler_returns": streamRet, "dispatcher_got": fmt.Sprint(serr)}
+		o.Case("stream_registry_failing", fmt.Sprintf("SRet \"registry\" %s %s %s %s None %s %s %s %s %s", hx.Str(svcName), hx.Str(kind), hx.B(flags[kind][0]), hx.B(flags[kind][1]),
+			hx.List(decS), hx.Z(ctx0), hx.Z(streamRet), outcomeTerm(&hx.Msg{}, serr), hx.List(l.take())), desc2r)
+		streamRet = 0
 
 		// carrier 3: in-process channel, transport-level interceptors on the channel
 		ipc := &inprocgrpc.Channel{}
@@ -375,18 +398,23 @@ func runC16(o *hx.Out, r *hx.Rand, thorough bool) {
 			if tst != nil {
 				opts = append(opts, httpgrpc.WithServerStreamInterceptor(tst))
 			}
+			// mounted under a base path or not: interceptors are told the method's name, never the URL path
+			bp := r.Pick([]string{"", "/", "/foo/", "/api/v1", "/a/b/"})
+			if bp != "" {
+				opts = append(opts, httpgrpc.WithBasePath(bp))
+			}
 			hs := httpgrpc.NewServer(opts...)
 			hs.RegisterService(both, svc)
 			ts := httptest.NewServer(hs)
-			u, _ := url.Parse(ts.URL)
+			u, _ := url.Parse(ts.URL + bp)
 			hc := &httpgrpc.Channel{Transport: &http.Transport{}, BaseURL: u}
 			l.take()
 			out := &hx.Msg{}
 			err = hc.Invoke(context.Background(), "/"+svcName+"/U", &hx.Msg{Count: int32(req)}, out)
-			desc5 := map[string]interface{}{"carrier": "httpgrpc", "svc": svcName, "transport": transport, "decor_innermost_first": decor, "req": req}
+			desc5 := map[string]interface{}{"carrier": "httpgrpc", "base_path": bp, "svc": svcName, "transport": transport, "decor_innermost_first": decor, "req": req}
 			o.Case("unary_http", fmt.Sprintf("UCase \"http\" %s \"U\" %s %s 0 %s %s %s", hx.Str(svcName), optTerm(transport), hx.List(decTerms), hx.Z(req), outcomeTerm(out, err), hx.List(l.take())), desc5)
 			err = runStream(hc)
-			desc6 := map[string]interface{}{"carrier": "httpgrpc", "svc": svcName, "stream": kind, "transport": transport, "decor_innermost_first": decor}
+			desc6 := map[string]interface{}{"carrier": "httpgrpc", "base_path": bp, "svc": svcName, "stream": kind, "transport": transport, "decor_innermost_first": decor}
 			o.Case("stream_http", fmt.Sprintf("SCase \"http\" %s %s %s %s %s %s 0 %s %s", hx.Str(svcName), hx.Str(kind), hx.B(flags[kind][0]), hx.B(flags[kind][1]),
 				optTerm(transport), hx.List(decTerms), outcomeTerm(&hx.Msg{}, err), hx.List(l.take())), desc6)
 			ts.Close()
